@@ -22,5 +22,6 @@ theorem k_inverse_remainder : Gen.Literals.WriteFloatBinary.k_inverse_remainder 
 theorem k_calculate_shl : Gen.Literals.WriteFloatBinary.k_calculate_shl = Spec.LiteralsExpected.WriteFloatBinary.k_calculate_shl := by decide
 theorem k_scale_sci_exp : Gen.Literals.WriteFloatBinary.k_scale_sci_exp = Spec.LiteralsExpected.WriteFloatBinary.k_scale_sci_exp := by decide
 theorem k_truncate_and_round : Gen.Literals.WriteFloatBinary.k_truncate_and_round = Spec.LiteralsExpected.WriteFloatBinary.k_truncate_and_round := by decide
+theorem k_truncate_and_round_digits : Gen.Literals.WriteFloatBinary.k_truncate_and_round_digits = Spec.LiteralsExpected.WriteFloatBinary.k_truncate_and_round_digits := by decide
 
 end LexVerif.Props.Literals.WriteFloatBinary
